@@ -164,7 +164,11 @@ def run_case(cid, rng, workdir):
             ev["obs"] = __import__("pvmon.oracle.itp_min", fromlist=["x"]).read_itp(ev["out"])
         else:
             res["status"] = "rejected"
-            if passed_links:
+            if passed_links and ev["ref"] is None and "max() iterable argument is empty" in (run.get("error") or ""):
+                # the links removed every atom of a residue: no molecule is left to be written for that residue graph (the
+                # reference calls such inputs outside its language, as in C02 / C13)
+                bump(res, "residue_without_atoms_left")
+            elif passed_links:
                 violation(res, "no-file-after-link-stage:%s" % run.get("exc_type"),
                           "input passed mapping and link application but gen_params raised %s and wrote no file" % run["error"], w())
             return res
